@@ -123,19 +123,23 @@ fn find_priority<T: ItemLike>(node: &Option<Box<TreapNode<T>>>, id: u32) -> Opti
 
 /// One thread's private history.  Every node-creating step creates exactly one node.
 /// Thread `tid`'s history with the item type chosen by the thread index.
-fn history(tid: usize, hseed: u64, ops: usize, long: usize, churn: usize, stamped: bool, baton: Option<&Baton>) -> ThreadOut {
+fn history(tid: usize, hseed: u64, ops: usize, long: usize, churn: usize, stagger: usize, stamped: bool, baton: Option<&Baton>) -> ThreadOut {
     if tid % 2 == 1 {
-        history_t::<BigItem>(tid, hseed, ops, long, churn, stamped, baton)
+        history_t::<BigItem>(tid, hseed, ops, long, churn, stagger, stamped, baton)
     } else {
-        history_t::<Item>(tid, hseed, ops, long, churn, stamped, baton)
+        history_t::<Item>(tid, hseed, ops, long, churn, stagger, stamped, baton)
     }
 }
 
-fn history_t<T: ItemLike>(tid: usize, hseed: u64, ops: usize, long: usize, churn: usize, stamped: bool, baton: Option<&Baton>) -> ThreadOut {
+fn history_t<T: ItemLike>(tid: usize, hseed: u64, ops: usize, long: usize, churn: usize, stagger: usize, stamped: bool, baton: Option<&Baton>) -> ThreadOut {
     let mut rng = hseed ^ ((tid as u64 + 1) << 32);
     let mut t: Treap<T> = Treap::new();
     let mut model: Vec<u32> = Vec::new();
     let mut out = ThreadOut { prios: Vec::new(), stamps: Vec::new(), func: String::new() };
+    // optional staggered start: some threads begin a few scheduling points later
+    for _ in 0..stagger * tid {
+        std::thread::yield_now();
+    }
     let mut next_id = (tid as u32) * 100_000 + 1;
     let mut mismatch: Option<String> = None;
     // optional long prefix of bare node creations: anything that happens only every N draws
@@ -228,6 +232,15 @@ fn history_t<T: ItemLike>(tid: usize, hseed: u64, ops: usize, long: usize, churn
                         mismatch = Some(format!("step {}: first/last {:?}/{:?}", step, f, l));
                     }
                 }
+                9 if (r / 10) % 4 == 0 => {
+                    // drop the whole treap and start over (node deallocation in the middle of
+                    // the other threads' activity)
+                    t = Treap::new();
+                    model.clear();
+                    if !t.is_empty() && mismatch.is_none() {
+                        mismatch = Some(format!("step {}: fresh treap not empty", step));
+                    }
+                }
                 _ => {
                     if t.size() != model.len() && mismatch.is_none() {
                         mismatch = Some(format!("step {}: size {} expected {}", step, t.size(), model.len()));
@@ -301,8 +314,10 @@ fn main() {
     let ops: usize = arg(&args, "--ops").and_then(|s| s.parse().ok()).unwrap_or(10);
     let long: usize = arg(&args, "--long").and_then(|s| s.parse().ok()).unwrap_or(0);
     let churn: usize = arg(&args, "--churn").and_then(|s| s.parse().ok()).unwrap_or(0);
+    let stagger: usize = arg(&args, "--stagger").and_then(|s| s.parse().ok()).unwrap_or(0);
     let stamped = args.iter().any(|a| a == "--stamped");
     let main_participates = args.iter().any(|a| a == "--main-participates");
+    let barrier = args.iter().any(|a| a == "--barrier");
 
     match mode.as_str() {
         "single" => {
@@ -316,7 +331,7 @@ fn main() {
             let perm = arg(&args, "--perm").map(|s| list(&s)).unwrap_or_else(|| (0..threads).collect());
             let mut outs: Vec<Option<ThreadOut>> = (0..threads).map(|_| None).collect();
             for &tid in &perm {
-                let h = std::thread::spawn(move || history(tid, hseed, ops, long, churn, stamped, None));
+                let h = std::thread::spawn(move || history(tid, hseed, ops, long, churn, stagger, stamped, None));
                 outs[tid] = Some(h.join().unwrap());
             }
             for (tid, o) in outs.iter().enumerate() {
@@ -330,7 +345,7 @@ fn main() {
             let hs: Vec<_> = (0..threads)
                 .map(|tid| {
                     let b = baton.clone();
-                    std::thread::spawn(move || history(tid, hseed, ops, long, churn, stamped, Some(&b)))
+                    std::thread::spawn(move || history(tid, hseed, ops, long, churn, 0, stamped, Some(&b)))
                 })
                 .collect();
             for (tid, h) in hs.into_iter().enumerate() {
@@ -340,10 +355,27 @@ fn main() {
         _ => {
             // concurrent: the schedule is whatever the (Miri) scheduler decides
             let first = if main_participates { 1 } else { 0 };
-            let hs: Vec<_> = (first..threads).map(|tid| std::thread::spawn(move || history(tid, hseed, ops, long, churn, stamped, None))).collect();
+            // optional start barrier: all participants are released together, so their FIRST draws
+            // happen close to each other (once-per-process windows need that); it only adds a
+            // happens-before edge at the very start
+            let gate = if barrier { Some(Arc::new(std::sync::Barrier::new(threads))) } else { None };
+            let hs: Vec<_> = (first..threads)
+                .map(|tid| {
+                    let gate = gate.clone();
+                    std::thread::spawn(move || {
+                        if let Some(g) = &gate {
+                            g.wait();
+                        }
+                        history(tid, hseed, ops, long, churn, stagger, stamped, None)
+                    })
+                })
+                .collect();
             let mut outs: Vec<ThreadOut> = Vec::new();
             if main_participates {
-                outs.push(history(0, hseed, ops, long, churn, stamped, None));
+                if let Some(g) = &gate {
+                    g.wait();
+                }
+                outs.push(history(0, hseed, ops, long, churn, stagger, stamped, None));
             }
             for h in hs {
                 outs.push(h.join().unwrap());
